@@ -147,6 +147,12 @@ void harness(void) {
 	t_bidib_train_peripheral_mapping *fo = &g_array_index(t1->peripherals, t_bidib_train_peripheral_mapping, 1);
 	VASSUME((fm->bit <= 4 || fm->bit >= 8) && (fo->bit <= 4 || fo->bit >= 8));
 	b1->node_addr.sub = 0; b1->node_addr.subsub = 0; VASSUME(b1->node_addr.top != 0);
+#ifdef SB_TRACK_OUTPUT2
+	/* second track output on board b2, first in the list; connected or not, class bit concrete (steers control flow) */
+	t_bidib_board *b2 = sbw.b2;
+	b2->unique_id.class_id |= 0x10;
+	b2->node_addr.subsub = 0; VASSUME(b2->node_addr.top != 0 && b2->node_addr.sub != 0);
+#endif
 	/* initial values as the parsers record them */
 	{ t_bidib_state_initial_value v = {g_string_new("p1"), g_string_new("n")}; SB_PUSH(bidib_initial_values.points, t_bidib_state_initial_value, v); }
 	{ t_bidib_state_initial_value v = {g_string_new("s1"), g_string_new("go")}; SB_PUSH(bidib_initial_values.signals, t_bidib_state_initial_value, v); }
@@ -171,7 +177,14 @@ void harness(void) {
 		d[0] = l1->port.port0; d[1] = l1->port.port1; d[2] = l1on->value;
 		VASSERT(k < cap_n && msg_is(k < CAP_N ? k : 0, MSG_LC_OUTPUT, b1->node_addr, d, 3), "initial peripheral aspect commanded once"); k++;
 	}
+#ifdef SB_TRACK_OUTPUT2
+	for (int o = 0; o < 2; o++) {
+	t_bidib_board *ob = o == 0 ? b2 : b1;
+	if (o == 0 ? b2->connected : to) {
+#else
+	{ t_bidib_board *ob = b1;
 	if (to) {
+#endif
 		int grp = fm->bit < 5 ? 1 : fm->bit < 12 ? 2 : fm->bit < 16 ? 3 : fm->bit < 24 ? 4 : 5;
 		int ogrp = fo->bit < 5 ? 1 : fo->bit < 12 ? 2 : fo->bit < 16 ? 3 : fo->bit < 24 ? 4 : 5;
 		uint8_t fb[4] = {0, 0, 0, 0};
@@ -179,10 +192,11 @@ void harness(void) {
 		fb[fm->bit / 8] |= (uint8_t)(fv << (fm->bit % 8));
 		d[0] = t1->dcc_addr.addrl; d[1] = t1->dcc_addr.addrh; d[2] = t1->dcc_speed_steps == 28 ? 2 : t1->dcc_speed_steps == 126 ? 3 : 0;
 		d[3] = (uint8_t)(1 << grp); d[4] = 0; d[5] = fb[0]; d[6] = fb[1]; d[7] = fb[2]; d[8] = fb[3];
-		VASSERT(k < cap_n && msg_is(k < CAP_N ? k : 0, MSG_CS_DRIVE, b1->node_addr, d, 9), "initial train function commanded once per connected track output (as bidib_set_train_peripheral does)"); k++;
+		VASSERT(k < cap_n && msg_is(k < CAP_N ? k : 0, MSG_CS_DRIVE, ob->node_addr, d, 9), "initial train function commanded once per connected track output (as bidib_set_train_peripheral does)"); k++;
 		/* the library also re-asserts speed 0 for that train on that output */
 		d[3] = 1; d[4] = fwd_before ? 0x80 : 0x00; d[5] = d[6] = d[7] = d[8] = 0;
-		VASSERT(k < cap_n && msg_is(k < CAP_N ? k : 0, MSG_CS_DRIVE, b1->node_addr, d, 9), "followed by speed 0 (direction kept)"); k++;
+		VASSERT(k < cap_n && msg_is(k < CAP_N ? k : 0, MSG_CS_DRIVE, ob->node_addr, d, 9), "followed by speed 0 (direction kept)"); k++;
+	}
 	}
 	VASSERT(cap_n == k, "nothing else is commanded; nothing at all for a disconnected board");
 	VASSERT(verif_all_free(), "locks released");
